@@ -70,8 +70,14 @@ def build_tree(g, a, b):
         if p in names:
             continue
         names.add(p)
-        if r.random() < 0.15:
-            entries.append({"p": p, "k": "l", "t": "nowhere"})
+        if r.random() < 0.2:
+            # a symbolic link: dangling, to a directory of the tree or to a file of the tree (relative target). Whatever it points at,
+            # the link itself is a non-directory entry: a "file" for --no-rename-files / --no-rename-dirs
+            up = "../" * p.count("/")
+            real_dirs = [d for d in dirs if d]
+            files_so_far = [e["p"] for e in entries if e["k"] == "f"]
+            tgt = r.choice(["nowhere"] + ([up + r.choice(real_dirs)] * 2 if real_dirs else []) + ([up + r.choice(files_so_far)] if files_so_far else []))
+            entries.append({"p": p, "k": "l", "t": tgt})
         else:
             entries.append({"p": p, "k": "f", "c": b"plain text\n", "m": 0o644})
         if new:
@@ -187,7 +193,7 @@ def run(R):
         # completeness / exactness by construction
         want = {}
         for p, (kind, newname) in expect.items():
-            if (kind == "dir" and not rd) or (kind == "file" and not rf and next(e for e in tree if e["p"] == p)["k"] == "f"):
+            if (kind == "dir" and not rd) or (kind == "file" and not rf):
                 continue
             parent = p.rsplit("/", 1)[0] + "/" if "/" in p else ""
             want[p] = (kind, parent + newname)
@@ -195,8 +201,6 @@ def run(R):
         for p, (kind, np) in want.items():
             is_link = next(e for e in tree if e["p"] == p)["k"] == "l"
             if p not in got:
-                if is_link and not rf:
-                    continue
                 fails.append({"why": f"{p} contains the term in its own name but is not scheduled for a rename", **ctx})
                 break
             if got[p][1] != np:
